@@ -321,3 +321,10 @@ EXTERNAL.update(EXTERNAL_THREADS)
 # properties whose theorem files are still being proved are not claimed yet
 for _p in ('C16', 'C17'):
     PROPS[_p]['claimed'] = False
+
+# ------------------------------------------------------------------ translated constants (supplementary source tie)
+CONSTS = {'C05': 'Client', 'C06': 'Client', 'C14': 'Client', 'C18': 'Reader', 'C11': 'Gen', 'C16': 'Magic', 'C17': 'Magic',
+          'C13': 'Poller', 'C08': 'Updater', 'C09': 'Updater', 'C10': 'Classify', 'C07': 'Bound', 'C19': 'Drift'}
+for _p, _g in CONSTS.items():
+    if _p in PROPS:
+        PROPS[_p]['consts_module'] = f'ClockBound.Properties.Consts{_g}'
